@@ -233,7 +233,16 @@ Print Assumptions C06_reject_overlimit.
 
 (* ================================================================== *)
 (** ** stored under the hash.  [H] = meow.Checksum(0, .), [compress]/[decompress] =
-    s2.EncodeBetter / s2.Decode: never computed, universally quantified. *)
+    s2.EncodeBetter / s2.Decode: never computed, universally quantified.
+    The store model is value-based: [sset k v] stores the VALUE v, so by construction nothing
+    the caller does to its buffers afterwards can change a stored object.  In Go that is the
+    job of the defensive copy in objects.saveObj (a badger transaction retains the slice it
+    is given until commit, and callers reuse one scratch buffer across SaveBlock /
+    SaveBlockIndex calls).  Slice aliasing is outside the Coq model; it is covered by the
+    correspondence: every store case runs the Save / Get sequence with the callers'
+    buffer-reuse idiom over objmock, over a store that retains the slices it is given, and
+    over the repository's own objbadger.NewTxn (read back after Commit), and all three must
+    give the observation the model predicts. *)
 
 (** Every Save writes exactly one key and touches no other: blocks, block indices,
     tables and commits under prefix ++ H content (and return H content); the table index
